@@ -41,6 +41,8 @@ def gen_cases(rng, tier):
     model = spec.gen_pair_model(rng, groute, target="LAMMPS", nr_choices=[3, 4, 5, 8, 11, 21, 50, 101, 200, 400] + big)
     if route.startswith("api"):
       model["api_variant"] = rng.choice([None, None, "tuple", "int_cutoff", "kwargs", "realfile", "amend_after_write"])
+      if i % 7 == 3:
+        model["api_variant"] = "refit"      # the state behind the functions is refined between two writes of the same objects
       if model["api_variant"] == "int_cutoff":
         model["tab"]["cutoff"] = float(rng.randint(1, 20))
       if i % 5 in (1, 2, 3):
@@ -158,6 +160,16 @@ def run_case(case, ctx):
       text = res["data"].decode()
     else:
       with monitors.PotentialTrace(log):
+        if model.get("api_variant") == "refit" and route.startswith("api"):
+          import atsim.potentials as ap_
+          model["api_refit"] = 1
+          routes.refit_begin()
+          try:
+            ap_.writePotentials("LAMMPS", routes.pair_potentials_api(model), cutoff, nr, io.StringIO())
+          except Exception:
+            pass
+          routes.refit_end()
+          del log.events[:]
         if route == "api_class":
           tab = routes.pair_tab_api(model)
           if model.get("api_variant") == "amend_after_write":
@@ -190,6 +202,7 @@ def run_case(case, ctx):
     ctx.violation("exception", "valid model failed: %s: %s" % (et, e), what="exception", exc=et, func=fn)
     return
   ctx.count("executions")
+  routes.refit_done()
   if str(model.get("api_results")).startswith("numpy0d"):
     ctx.cls("api_results:" + model["api_results"])
     if not routes.numpy0d_mutations(ctx):
